@@ -259,14 +259,15 @@ def check_riseset(case):
 
 
 DATES = [(1900, 1, 1), (1950, 3, 21), (1972, 7, 1), (1999, 6, 21), (2019, 4, 2), (2024, 2, 29), (2050, 9, 23),
-         (2100, 12, 21)]
+         (2100, 12, 21), (1900, 3, 20), (1900, 9, 22), (1916, 9, 20), (2084, 9, 20), (2092, 3, 15), (2100, 3, 12),
+         (2100, 9, 18)]
 RS_LATS = [0.0, 23.4, -23.4, 45.0, -45.0, 48.133, -48.133, 60.0, -60.0, 65.0, -65.0, 66.5, -66.5, 67.0, -70.0]
 RS_LONS = [0.0, 75.0, -75.0, 11.567, 120.0, 179.9, -179.9]
 RS_H = [0.0, 520.0, 5000.0]
 
 
 def riseset_cases():
-    return [{"date": list(dt), "lat": la, "lon": lo, "height": h} for dt in DATES for la in RS_LATS
+    return [{"date": list(dt), "year": dt[0], "lat": la, "lon": lo, "height": h} for dt in DATES for la in RS_LATS
             for lo in RS_LONS for h in RS_H]
 
 
